@@ -167,6 +167,12 @@ def basicExprs (σ : List Scope) : List Expr → B → Acc → B × Acc
     let r := basicExpr σ e b a
     basicExprs σ es r.1 r.2
 
+/-- An optional part of `visit_Try` keyed by `rep` (`else` block / handlers / `finally` block): `pre`, visit, `post`. -/
+def optSection (rep : Option Nat) (pre post : Nat → B → B) (visit : Nat → B → Acc → B × Acc) (r : B × Acc) : B × Acc :=
+  match rep with
+  | none => r
+  | some k => (post k (visit k (pre k r.1) r.2).1, (visit k (pre k r.1) r.2).2)
+
 mutual
 /-- `self.visit(stmt)` with current builder `b`. -/
 def visitStmt (σ : List Scope) : Stmt → B → Acc → B × Acc
@@ -262,28 +268,17 @@ def visitStmt (σ : List Scope) : Stmt → B → Acc → B × Acc
       let b := b.beginStatement i
       let σ' := Scope.try_ i (!final.isEmpty) (handlerIds handlers) :: σ
       let r := visitStmts σ' body b a
-      let r :=
-        match orelse with
-        | [] => r
-        | rep :: _ =>
-            let b := (r.1.enterCondSection rep.id).newCondBranch rep.id
-            let r := visitStmts σ' orelse b r.2
-            ((r.1.newCondBranch rep.id).exitCondSection rep.id, r.2)
+      -- the orelse is an optional continuation of the body (a cond section with one real branch)
+      let r := optSection (orelse.head?.map Stmt.id)
+        (fun k b => (b.enterCondSection k).newCondBranch k) (fun k b => (b.newCondBranch k).exitCondSection k)
+        (fun _ => visitStmts σ' orelse) r
       -- the lexical scope of the try ends HERE, before the handlers
-      let r :=
-        match handlers with
-        | [] => r
-        | rep :: _ =>
-            let b := r.1.enterCondSection rep.id
-            let r := visitHandlers σ rep.id handlers b r.2
-            ((r.1.newCondBranch rep.id).exitCondSection rep.id, r.2)
-      let r :=
-        match final with
-        | [] => r
-        | _ :: _ =>
-            let b := r.1.enterFinallySection i
-            let r := visitStmts σ final b r.2
-            (r.1.exitFinallySection i, r.2)
+      let r := optSection (handlers.head?.map Stmt.id)
+        (fun k b => b.enterCondSection k) (fun k b => (b.newCondBranch k).exitCondSection k)
+        (fun k => visitHandlers σ k handlers) r
+      let r := optSection (if final.isEmpty then none else some i)
+        (fun k b => b.enterFinallySection k) (fun k b => b.exitFinallySection k)
+        (fun _ => visitStmts σ final) r
       (r.1.endStatement i, r.2)
   | .handler i ty name body, b, a =>
       -- visit_ExceptHandler
